@@ -34,6 +34,12 @@ class Ctx:
         self.registered = []     # (rank, type, consumable) since beginCollect
         self.canvases = []
         self.update_owner = None
+        self.section = None      # prefix of the last beginCollect (dump of that Einsum follows its endCollect)
+        self.sections = []
+        self.dump_cache = {}
+        self.isects = []
+        self.queried_isects = []
+        self.live_iters = 0      # fiber iterators currently being walked by a for loop
 
     def probe(self, name, n=1):
         self.probes[name] = self.probes.get(name, 0) + n
@@ -45,6 +51,13 @@ class Ctx:
 
     def iter_event(self):
         self.seq += 1
+        if self.sections and self.collecting is not None:
+            sec = self.sections[-1]
+            if sec["first_iter"] is None:
+                sec["first_iter"] = self.seq
+            sec["last_iter"] = self.seq
+        elif self.sections is not None and self.collecting is None and self.section is not None:
+            self.iters_outside_collection = getattr(self, "iters_outside_collection", 0) + 1
         h = self.hist
         if h and h[-1][1] == "iter":
             s, _, first, last, n = h[-1]
@@ -121,9 +134,14 @@ class FBase:
         return Lazy(lambda: _or(a, b), lambda: ("", a.default(), b.default()))
 
     def __iter__(self):
-        for item in self._items():
-            CTX.iter_event()
-            yield item
+        ctx = CTX
+        ctx.live_iters += 1
+        try:
+            for item in self._items():
+                ctx.iter_event()
+                yield item
+        finally:
+            ctx.live_iters -= 1
 
     def project(self, trans_fn=None, interval=None):
         def gen():
